@@ -334,6 +334,95 @@ def jerk_correspondence(ctx, libdir):
                    ok_all and not bad, "mismatching cases: %s" % [{q: cases[b][q] for q in ("N", "nact", "ignore", "tp")} for b in bad[:6]])
 
 
+def ode_loop_correspondence(ctx):
+    """bit-exact: the (t, dt) sequence reb_integrator_part2 passes to reb_integrator_bs_step when advancing a user ODE
+    (gdb on the -O0 build of the current tree, breakpoints located by source text) vs coq/C01/OdeLoop.v at binary64,
+    driven by the observed answers (success, ri_bs.dt_proposed) of the real sub-stepper."""
+    src = open(os.path.join(vlib.REPO, "src", "integrator.c")).read().splitlines()
+    call = [i + 1 for i, l in enumerate(src) if "int success = reb_integrator_bs_step(r, dt);" in l]
+    ret = [i + 1 for i, l in enumerate(src) if l.strip().startswith("if (success){")]
+    if len(call) != 1 or len(ret) != 1 or ret[0] != call[0] + 1:
+        ctx.obligation("correspondence:C01 ODE sub-step loop located in integrator.c", False, "call lines %s, return lines %s" % (call, ret))
+        return
+    try:
+        dbg = vlib.build_lib("default", extra_flags=["-O0", "-g", "-fno-inline"], tag="c01dbg")
+        exe = build_driver(dbg, "dbg")
+    except RuntimeError as e:
+        ctx.obligation("correspondence:C01 debug build of the current tree (ODE loop)", False, str(e)[-1000:])
+        return
+    gdbf = os.path.join(vlib.BUILD, "c01drv", "ode_trace_%d_%d.gdb" % (call[0], os.getpid()))
+    with open(gdbf, "w") as f:
+        f.write("set pagination off\nset confirm off\nset breakpoint pending on\n"
+                "break integrator.c:%d\ncommands\nsilent\nprintf \"OC %%.17g %%.17g %%.17g %%.17g %%.17g\\n\", t, dt, r->t, r->dt_last_done, r->ri_bs.dt_proposed\ncontinue\nend\n"
+                "break integrator.c:%d\ncommands\nsilent\nprintf \"OR %%d %%.17g\\n\", success, r->ri_bs.dt_proposed\ncontinue\nend\nrun\nquit\n" % (call[0], ret[0]))
+    runs = []
+    for integ, typ in (("whfast", 0), ("leapfrog", 0), ("saba", 6), ("ias15", 0), ("mercurius", 0), ("trace", 0), ("eos", 0), ("janus", 0)):
+        for wdt10 in (5, 70, 500):
+            for dt in ((0.05, -0.05) if wdt10 != 5 or ctx.thorough else (0.05,)):
+                runs.append((integ, wdt10, typ, dt))
+    def one(rn):
+        integ, wdt10, typ, dt = rn
+        for attempt in (0, 1):
+            r = subprocess.run(["timeout", "300", "gdb", "-batch", "-nx", "-x", gdbf, "--args", exe, "ode:" + integ, str(wdt10), str(typ), "4", "step", repr(dt)],
+                               capture_output=True, text=True)
+            rows = [l.split() for l in r.stdout.splitlines() if l.startswith("OC ") or l.startswith("OR ")]
+            if rows and "STATE" in r.stderr and len(rows) % 2 == 0:
+                return rows
+        return None
+    with ThreadPoolExecutor(max_workers=vlib.JOBS) as ex:
+        traces = list(ex.map(one, runs))
+    try: os.remove(gdbf)
+    except OSError: pass
+    cases, labels, bad = [], [], []
+    H = lambda x: vlib.fhex(float(x))
+    for rn, rows in zip(runs, traces):
+        label = "ode:%s w*dt=%g dt=%g" % (rn[0], rn[1] / 10, rn[3])
+        if rows is None:
+            bad.append((label, "no trace")); continue
+        groups, cur = [], None
+        try:
+            for k in range(0, len(rows), 2):
+                c, rr = rows[k], rows[k + 1]
+                if c[0] != "OC" or rr[0] != "OR":
+                    raise ValueError("call/return rows out of order")
+                t, dt, rt, dtl, prop = [float(x) for x in c[1:6]]
+                succ, prop2 = int(rr[1]) != 0, float(rr[2])
+                if cur is None or cur["rt"] != rt:
+                    cur = {"rt": rt, "dtl": dtl, "prop0": prop, "calls": [], "oracle": []}; groups.append(cur)
+                cur["calls"].append((t, dt)); cur["oracle"].append((succ, prop2))
+        except (ValueError, IndexError) as e:
+            bad.append((label, "unparsable trace %r" % (e,))); continue
+        for g in groups:
+            t_end = g["calls"][-1][0] + g["calls"][-1][1] if g["oracle"][-1][0] else g["calls"][-1][0]
+            exp = [x for c in g["calls"] for x in c] + [t_end, 1.0]
+            term = "(odeF [%s] %s %s %s)" % ("; ".join("(%s, %s)" % ("true" if s_ else "false", H(p_)) for s_, p_ in g["oracle"]),
+                                             H(g["rt"]), H(g["dtl"]), H(g["prop0"]))
+            cases.append((term, exp)); labels.append((label, len(g["calls"])))
+            ctx.case(key=("odeloop", rn[0], rn[1], rn[3] > 0, len(g["calls"])), nontrivial=len(g["calls"]) > 1,
+                     sample={"ode_loop": label, "substeps": len(g["calls"])} if len(cases) == 1 else None)
+    jobs = []
+    chunk = 60
+    for c0 in range(0, len(cases), chunk):
+        body = ("From Coq Require Import List ZArith PrimFloat.\nFrom RV Require Import Common.FloatNum C01.OdeLoopRun.\n"
+                "Import ListNotations.\nOpen Scope float_scope.\nDefinition cases : list (list float * list float) := [\n")
+        body += ";\n".join("(%s, %s)" % (t, vlib.flist(e)) for t, e in cases[c0:c0 + chunk])
+        body += "].\nEval vm_compute in (bad_cases cases).\n"
+        jobs.append(("c01_odeloop_%d" % (c0 // chunk), body))
+    ok_all = True
+    for (name, ok, out), c0 in zip(vlib.coq_eval_many(jobs), range(0, len(cases), chunk)):
+        b = vlib.parse_coq_list_nat(out) if ok else None
+        if b is None:
+            ok_all = False; bad.append((name, out[-600:]))
+        else:
+            bad += [(labels[c0 + x][0], "model (t, dt) sequence differs from the library's (%d sub-steps)" % labels[c0 + x][1]) for x in b]
+    multi = len([1 for _, n in labels if n > 1])
+    if not bad:
+        ctx.traces += len(cases)
+    ctx.obligation("correspondence:C01 ODE sub-step loop model(binary64) == (t, dt) passed to reb_integrator_bs_step, bit-for-bit, %d N-body steps (%d with several sub-steps)"
+                   % (len(cases), multi), not bad and multi > 0, "; ".join("%s: %s" % b for b in bad[:6]) or "no multi-sub-step case traced")
+    ctx.extra["ode_loop_steps_compared"] = len(cases)
+
+
 def search(ctx, libdir, only=None):
     args = [ctx.seed, ctx.tier] + ([only] if only else [])
     r = vlib.run_py(libdir, os.path.join(HERE, "c01_search.py"), args, timeout=3000)
@@ -367,10 +456,11 @@ def search(ctx, libdir, only=None):
 def run(ctx):
     libdir = ctx.lib()
     regen_ok = ctx.regen("translate_schemes.py")
-    proved = ctx.prove("C01", extra_targets=["C01/JerkRun.vo"], timeout=1200)
+    proved = ctx.prove("C01", extra_targets=["C01/JerkRun.vo", "C01/OdeLoopRun.vo"], timeout=1200)
     if regen_ok:
         correspondence(ctx, libdir)
     jerk_correspondence(ctx, libdir)
+    ode_loop_correspondence(ctx)
     search(ctx, libdir)
     ctx.rule = ("proof: finite, exhaustive over the schemes listed in coq/C01/Props.v. correspondence: one gdb-traced run per "
                 "(integrator, type/kernel/corrector/phi0/phi1/n, step | step,step,synchronize, sign of dt); distinct by label. searcher: one "
